@@ -302,6 +302,84 @@ impl Strategy for Segments {
     }
 }
 
+/// Site-directed segments (schedules derived from TLC behaviours of ArcSwapImpl): thread t runs until it is
+/// about to perform an access matching `pat` for the n-th time within the segment; then the next segment.
+/// A pattern matches a site if every '.'-separated field is equal or "*". An empty pattern = run to completion.
+pub struct Until {
+    segs: Vec<(usize, String, usize)>,
+    i: usize,
+    hits: usize,
+    granted: usize,
+    reached: usize,
+    missed: usize,
+    first_missed: i64,
+}
+
+fn site_matches(pat: &str, site: &str) -> bool {
+    if pat == site {
+        return true;
+    }
+    let p: Vec<&str> = pat.split('.').collect();
+    let s: Vec<&str> = site.split('.').collect();
+    p.len() == s.len() && p.iter().zip(s.iter()).all(|(a, b)| *a == "*" || a == b)
+}
+
+impl Strategy for Until {
+    fn pick(&mut self, pt: &Point) -> usize {
+        while self.i < self.segs.len() {
+            let (u, pat, n) = (self.segs[self.i].0, self.segs[self.i].1.clone(), self.segs[self.i].2);
+            if u < pt.gone.len() && pt.gone[u] {
+                if pat.is_empty() {
+                    self.reached += 1;
+                } else {
+                    self.missed += 1;
+                    if self.first_missed < 0 {
+                        self.first_missed = self.i as i64;
+                    }
+                }
+                self.i += 1;
+                self.hits = 0;
+                self.granted = 0;
+                continue;
+            }
+            if !pt.runnable.contains(&u) {
+                // blocked (waiting for the setup thread): somebody outside the plan runs
+                let planned: Vec<usize> = self.segs[self.i..].iter().map(|s| s.0).collect();
+                for t in pt.runnable {
+                    if !planned.contains(t) {
+                        return *t;
+                    }
+                }
+                return pt.runnable[0];
+            }
+            // u is parked at pt.sites[u] (or not started yet: empty site)
+            if !pat.is_empty() && site_matches(&pat, &pt.sites[u]) && (pt.cur == u || self.granted == 0) {
+                // arrival at the pattern: the first arrival counts also when the thread was already parked there
+                if self.hits + 1 >= n {
+                    self.reached += 1;
+                    self.i += 1;
+                    self.hits = 0;
+                    self.granted = 0;
+                    continue;
+                }
+                if pt.cur == u || self.granted == 0 {
+                    self.hits += 1;
+                }
+            }
+            self.granted += 1;
+            return u;
+        }
+        if pt.cur_runnable {
+            pt.cur
+        } else {
+            pt.runnable[0]
+        }
+    }
+    fn summary(&self) -> Value {
+        serde_json::json!({"segments": self.segs.len(), "reached": self.reached, "missed": self.missed, "first_missed": self.first_missed})
+    }
+}
+
 fn parse_seq(v: &Value) -> Vec<(usize, bool)> {
     v.as_array()
         .map(|a| {
@@ -362,6 +440,22 @@ pub fn from_json(v: &Value, nthreads: usize) -> Box<dyn Strategy> {
                 .unwrap_or_default(),
             vsteps: 0,
             running: None,
+        }),
+        "until" => Box::new(Until {
+            segs: v["segs"]
+                .as_array()
+                .map(|a| {
+                    a.iter()
+                        .map(|p| (p[0].as_u64().unwrap() as usize, p[1].as_str().unwrap_or("").to_string(), p[2].as_u64().unwrap_or(1) as usize))
+                        .collect()
+                })
+                .unwrap_or_default(),
+            i: 0,
+            hits: 0,
+            granted: 0,
+            reached: 0,
+            missed: 0,
+            first_missed: -1,
         }),
         "segs" => Box::new(Segments {
             segs: v["segs"]
